@@ -1,6 +1,8 @@
 import Driver.OpsTemplate
 import BufrModel.SetValue
 import BufrModel.Decode
+import BufrSpec.RefDecode
+import BufrSpec.RefEncode
 /- driver ops for values, Section 4 encoding and decoding (C01–C04, C07, C14) -/
 open Bufr
 namespace Drv
@@ -20,6 +22,12 @@ def fmtVal (n : Node) : String :=
 
 def fmtVals (ns : List Node) : String :=
   if ns.isEmpty then "-" else " ".intercalate (ns.map fmtVal)
+
+def bytesToBits (bs : List Nat) : List Bool := bs.flatMap (bitsMSB 8)
+
+def fmtItem (it : Spec.Item) : String :=
+  let body := if it.kind = .ccitt then s!"{it.desc}:s:{toHex it.str}" else s!"{it.desc}:{it.width}:{it.raw}"
+  if it.afW > 0 then s!"{body}@{it.afW}:{it.af}" else body
 
 structure CodecSt where
   decoded : Array (List Node) := #[]
@@ -66,7 +74,7 @@ def fillNode (mode seed idx : Nat) (n : Node) : Node :=
         -- a new reference value of -1 cannot be told from "missing" (known limitation): avoid it
         -- a 64-bit field with its top bit set does not fit the library's int64 storage (known limitation)
         let raw := if n.enc.nbits = 64 ∧ raw ≠ missingIvalue 64 then raw % 2^62 else raw
-        let raw := if n.enc.type = .chngRef ∧ raw ≠ missingIvalue n.enc.nbits ∧ cvtIvalue raw n.enc.nbits = -1 then 0 else raw
+        let raw := if n.enc.type = .chngRef ∧ (raw = missingIvalue n.enc.nbits ∨ cvtIvalue raw n.enc.nbits = -1) then 0 else raw
         (setRaw n raw).1
       | _ => n
     if n1.afW > 0 ∧ n1.afW ≤ 64 then { n1 with afBits := mix seed (idx + 100003) % 2 ^ n1.afW } else n1
@@ -153,6 +161,44 @@ partial def stepCodec (st : TmplSt) (cs : CodecSt) (toks : List String) : Option
       stepCodec st cs ["ds.decode", toString t.edition, enf, toString flag, toString nsub, fr, to,
         ",".intercalate (t.descs.map toString), toHex bytes]
     | _, _ => some (st, cs, "none")
+  | ["spec.decode", ed, flag, nsub, descs, h, strict] =>
+    -- the *reference decoder* (BufrSpec.RefDecode) on the given data section
+    match ed.toNat?, flag.toNat?, nsub.toNat?, ((descs.splitOn ",").filter (· ≠ "")).mapM (·.toNat?), parseHex h with
+    | some ed, some flag, some nsub, some ds, some bytes =>
+      match Spec.refDecode T 100000 ed ds nsub (flag &&& 64 ≠ 0) (strict = "1") (bytesToBits bytes) with
+      | none => some (st, cs, "none")
+      | some subs => some (st, cs, "S " ++ " | ".intercalate (subs.map fun its => " ".intercalate (its.map fmtItem)))
+    | _, _, _, _, _ => some (st, cs, "bad-op")
+  | ["spec.reencode", ed, flag, nsub, descs, h, seed] =>
+    -- decode with the reference decoder, encode again with the reference encoder using the legal
+    -- freedoms chosen by `seed`, and make sure the reference decoder reads its own output back
+    match ed.toNat?, flag.toNat?, nsub.toNat?, ((descs.splitOn ",").filter (· ≠ "")).mapM (·.toNat?), parseHex h, seed.toNat? with
+    | some ed, some flag, some nsub, some ds, some bytes, some seed =>
+      let comp := flag &&& 64 ≠ 0
+      match Spec.refDecode T 100000 ed ds nsub comp false (bytesToBits bytes) with
+      | none => some (st, cs, "none")
+      | some subs =>
+        let shapes := subs.map fun its => its.map fun (it : Spec.Item) => (it.desc, it.width, it.afW)
+        let sameShape := match shapes with | [] => false | s0 :: rest => rest.all (· == s0)
+        -- factors and new reference values must agree for compressed form
+        let sameFactors := (Spec.transposeItems subs).all fun col =>
+          match col with
+          | [] => true
+          | (it : Spec.Item) :: rest => !((Desc.f it.desc = 0 ∧ Desc.x it.desc = 31) ∨ it.kind = .newRef) || rest.all (·.raw = it.raw)
+        -- character columns wider than 63 octets cannot list their values (NBINC has 6 bits)
+        let stringsFit := (Spec.transposeItems subs).all fun col =>
+          match col with
+          | [] => true
+          | (it : Spec.Item) :: rest => !(it.kind = .ccitt ∧ it.width / 8 > 63) || rest.all (·.str = it.str)
+        let comp' : Bool := if decide (nsub ≥ 2) && sameShape && sameFactors && stringsFit then (Spec.choice seed 999) % 3 ≠ 0 else false
+        let pad := 0   -- the octet fill is the only padding FM 94 allows
+        let bits := Spec.refEncode seed comp' subs pad
+        let bits := if ed ≤ 3 ∧ (bits.length / 8) % 2 = 1 then bits ++ List.replicate 8 false else bits
+        let flag' := if comp' then flag ||| 64 else flag &&& 191
+        match Spec.refDecode T 100000 ed ds nsub comp' true bits with
+        | some subs' => if subs' = subs then some (st, cs, s!"{flag'} {toHex (Spec.bitsToBytes bits)}") else some (st, cs, "spec-mismatch")
+        | none => some (st, cs, "spec-reject")
+    | _, _, _, _, _, _ => some (st, cs, "bad-op")
   | ["dd.list", k] =>
     match k.toNat? with
     | some k => match cs.decoded[k]? with
